@@ -21,6 +21,14 @@ Part == << <<"w", <<NText("w" \o Wide)>>>>,
            <<"lp3", <<ForN("k", R13, <<Tick, If(Cmp("==", V("k"), I(2)), <<Break>>, <<>>, NoElse)>>)>>>>,
            <<"it", <<Tick, NOut(P(V("it")))>>>>,                                 \* body of include/render ... for
            <<"itl", <<ForN("k", R12, <<Tick>>)>>>>,                             \* ... for, with a loop inside
+           <<"itr", <<Tick, RenderT(S("w"), "none", NilE, "", <<>>)>>>>,                   \* ... for, with a render inside (one more copy)
+           <<"itrl", <<RenderT(S("lp"), "none", NilE, "", <<>>)>>>>,
+           \* a chain of renders long enough for the number of context copies (not the scope stack of one
+           \* template) to be what a small depth limit cuts
+           <<"c1", <<RenderT(S("c2"), "none", NilE, "", <<>>)>>>>, <<"c2", <<RenderT(S("c3"), "none", NilE, "", <<>>)>>>>,
+           <<"c3", <<RenderT(S("c4"), "none", NilE, "", <<>>)>>>>, <<"c4", <<RenderT(S("c5"), "none", NilE, "", <<>>)>>>>,
+           <<"c5", <<RenderT(S("c6"), "for", R12, "", <<>>)>>>>, <<"c6", <<RenderT(S("c7"), "none", NilE, "", <<>>)>>>>,
+           <<"c7", <<Tick>>>>,
            \* assignments at every level of a chain of isolated contexts (namespace limit)
            <<"n1", <<Assign("b1", P(S("level-one-value"))), RenderT(S("n2"), "none", NilE, "", <<>>), NOut(P(V("b1")))>>>>,
            <<"n2", <<Assign("b2", P(S("level-two"))), Capture("b3", <<NText("captured at level two")>>), Call("nm", <<>>, <<>>), NOut(P(V("b2")))>>>>,
@@ -74,6 +82,10 @@ Nests == {Wrap(k1, b) : k1 \in Kinds, b \in Inner}
          \cup {Wrap(k1, <<Wrap(k2, b)>>) : k1 \in {"for", "tablerow", "forbreak"}, k2 \in {"for2", "tablerow", "forbreak", "cap"}, b \in Inner}
          \cup {Wrap("for", <<Wrap("for2", <<Wrap("tablerow", b)>>)>>) : b \in {<<Tick>>, <<RenderT(S("lp"), "none", NilE, "", <<>>)>>}}
          \cup {Include(S("itl"), "for", V("arr"), "", <<>>), RenderT(S("itl"), "for", V("arr"), "", <<>>)}
+         \cup {RenderT(S(t), "for", R12, "", <<>>) : t \in {"itr", "itrl"}} \cup {Include(S(t), "for", R12, "", <<>>) : t \in {"itr", "itrl"}}
+         \cup {Wrap("for", <<RenderT(S(t), "for", R12, "", <<>>)>>) : t \in {"itr", "itrl"}}
+         \cup {RenderT(S(t), "for", R12, "", <<>>) : t \in {"c1", "c3", "c6"}} \cup {RenderT(S(t), "none", NilE, "", <<>>) : t \in {"c1", "c4"}}
+         \cup {Include(S("c2"), "for", R12, "", <<>>)}
          \cup {Include(S(t), "none", NilE, "", <<>>) : t \in {"xl", "xm"}} \cup {RenderT(S(t), "none", NilE, "", <<>>) : t \in {"xl", "xm"}}
          \cup {Wrap(k1, <<Include(S("xl"), "none", NilE, "", <<>>)>>) : k1 \in {"for2", "tablerow"}}
          \* an interrupt raised inside `include ... for` / tablerow nested in a loop, then another loop
